@@ -182,7 +182,7 @@ def run_tlc(
         res.error_kind, res.violated = "deadlock", "Deadlock"
     elif "Assumption" in out and "is false" in out:
         res.error_kind, res.violated = "assumption", "ASSUME"
-    elif "Postcondition" in out and "violated" in out.lower() or "The postcondition" in out and "false" in out.lower():
+    elif re.search(r"Error: Postcondition .* is false", out):
         res.error_kind, res.violated = "postcondition", "POSTCONDITION"
     finished = "Model checking completed. No error has been found." in out or (
         simulate is not None and "Error:" not in out
